@@ -14,11 +14,21 @@ def main():
     core.load_repo()
     from vf import e2, spaces
 
+    from vf import lib
+
+    # each run has a different pre-history in its process: none / decoy models with other parameters / another decoy /
+    # decoy + the classes explored in reverse order.  A stateless library produces the same digest in all of them.
+    prelude = {1: "none", 2: "decoy x3", 3: "decoy x0.37", 4: "decoy x3, reverse class order"}.get(salt, "none")
+    if salt == 2 or salt == 4:
+        lib.decoy_prelude(force=True, factor=3.0)
+    elif salt == 3:
+        lib.decoy_prelude(force=True, factor=0.37)
     core.deterministic_ids(salt)
-    h = hashlib.sha256()
     n = 0
     viol = 0
-    for kind in spaces.KINDS:
+    per_kind = {}
+    for kind in (list(reversed(spaces.KINDS)) if salt == 4 else spaces.KINDS):
+        h = hashlib.sha256()
         s = e2.Search(kind, "default", "seed")
         m, L = s.build(())
         init = s.state(m, L)[0]
@@ -36,8 +46,10 @@ def main():
                         seen[digest] = 1
                         nxt.append(hist + (oi,))
             frontier = nxt
-    print(json.dumps({"digest": h.hexdigest(), "transitions": n, "invariant_violations": viol,
-                      "hashseed": __import__("os").environ.get("PYTHONHASHSEED"), "salt": salt}))
+        per_kind[kind] = h.hexdigest()
+    total = hashlib.sha256("".join(per_kind[k] for k in spaces.KINDS).encode()).hexdigest()
+    print(json.dumps({"digest": total, "per_class": per_kind, "transitions": n, "invariant_violations": viol,
+                      "hashseed": __import__("os").environ.get("PYTHONHASHSEED"), "salt": salt, "prelude": prelude}))
 
 
 if __name__ == "__main__":
